@@ -22,3 +22,52 @@ package transport
 //@   modifies nothing
 //@   ensures err == nil ==> r != nil && fresh(r) && wfMsg(r)
 //@   ensures err != nil ==> r == nil
+
+// ---- pipeline_conn.go (C05) ---------------------------------------------------------------------
+// Monitor invariant of pipelineConn.m (sync.RWMutex is assumed to give mutual exclusion, so each
+// critical section below is an atomic step): wire IDs are handed out in increasing order, never
+// wrap, and every registered waiter sits under an ID that has already been handed out.
+//@ spec func pcInv(c *pipelineConn) bool = 0 <= c.nextQid && c.nextQid <= 65536 && c.queue != nil
+//@        && forallkey(k, c.queue, has(c.queue, k) ==> int(k) < c.nextQid)
+
+//@ func (c *pipelineConn) addQueueC(respChan chan *dnsmsg.Msg) (qid uint16, err error)
+//@   props C05
+//@   requires c != nil && pcInv(c)
+//@   modifies c.reserved, c.nextQid, obj(c.queue)
+//@   ensures pcInv(c)
+//@   ensures [C05:eol-never-wraps] old(c.nextQid) > 65535 ==> err == errPipelineConnEoL && c.nextQid == old(c.nextQid)
+//@   ensures [C05:fresh-id] old(c.nextQid) <= 65535 ==> err == nil && int(qid) == old(c.nextQid) && c.nextQid == old(c.nextQid) + 1
+//@             && !old(has(c.queue, uint32(qid))) && has(c.queue, uint32(qid)) && c.queue[uint32(qid)] == respChan
+//@   ensures [C05:others-kept] forallkey(k, c.queue, (err != nil || k != uint32(qid)) ==> (has(c.queue, k) == old(has(c.queue, k)) && c.queue[k] == old(c.queue[k])))
+
+//@ func (c *pipelineConn) getQueueC(qid uint16) (ch chan<- *dnsmsg.Msg)
+//@   props C05
+//@   requires c != nil
+//@   modifies nothing
+//@   ensures [C05:route-by-id] ch == c.queue[uint32(qid)]
+
+//@ func (c *pipelineConn) closeWithErr(err error)
+//@   trusted
+//@   requires c != nil
+//@   modifies c.closed
+
+//@ func (c *pipelineConn) deleteQueueC(qid uint16)
+//@   props C05
+//@   requires c != nil && pcInv(c)
+//@   modifies obj(c.queue), c.closed
+//@   ensures pcInv(c)
+//@   ensures [C05:ids-never-reissued] c.nextQid == old(c.nextQid)
+//@   ensures [C05:removed] !has(c.queue, uint32(qid))
+//@   ensures [C05:others-kept] forallkey(k, c.queue, k != uint32(qid) ==> (has(c.queue, k) == old(has(c.queue, k)) && c.queue[k] == old(c.queue[k])))
+
+//@ func setQid(payload []byte, off int, qid uint16)
+//@   props C05 C01
+//@   requires 0 <= off && off + 2 <= len(payload)
+//@   modifies payload[off:off+2]
+//@   ensures BE16(payload, off) == qid
+
+//@ func copyMsgWithLenHdr(m []byte) (b pool.Buffer, err error)
+//@   props C05 C13 C01
+//@   modifies nothing
+//@   ensures len(m) > 65535 ==> err != nil && b == nil
+//@   ensures len(m) <= 65535 ==> err == nil && fresh(b) && len(b) == len(m) + 2 && BE16(b, 0) == uint16(len(m)) && bytesEq(b, 2, m, 0, len(m))
